@@ -86,6 +86,14 @@ def pipeline_wiring(prop):
                 check("five_pipeline_registers", len(st.pipeline.pipeline_registers) == 5)
             st = RiscvSimulation(mode="single_stage_pipeline").state if through else RiscvArchitecturalState(pipeline_mode="single_stage_pipeline")
             check("single_stage", [type(x) for x in st.pipeline.stages] == [SingleStage] and st.pipeline.execution_ordering == [0])
+        # the flag belongs to the simulation it was given to: building another simulation with the opposite setting
+        # (never stepped, sharing nothing) does not change it
+        a = RiscvSimulation(mode="five_stage_pipeline", detect_data_hazards=True)
+        b = RiscvSimulation(mode="five_stage_pipeline", detect_data_hazards=False)
+        c = RiscvArchitecturalState(pipeline_mode="five_stage_pipeline", detect_data_hazards=True)
+        check("flags_are_per_simulation", a.state.pipeline.stages[1].detect_data_hazards is True and b.state.pipeline.stages[1].detect_data_hazards is False
+              and c.pipeline.stages[1].detect_data_hazards is True)
+        check("stages_are_not_shared_between_simulations", a.state.pipeline.stages[1] is not b.state.pipeline.stages[1] and a.state.pipeline is not b.state.pipeline)
         # defaults: single-cycle mode, hazard detection on
         st = RiscvSimulation().state
         check("default_is_single_cycle", [type(x) for x in st.pipeline.stages] == [SingleStage])
